@@ -304,6 +304,15 @@ func runC19(rep *Report, r *Rng, tier string) {
 			runCsvCase(o, &c2, rep, valid)
 		}
 	}
+	// corpus: a well-formed CSV onto an existing output, both kinds of existing file, both modes (the command must fail
+	// and the existing file must be exactly as it was)
+	for _, big := range []bool{false, true} {
+		for _, present := range []string{"garbage", "index"} {
+			c := &CsvCase{Big: big, Present: present, Header: []string{hx("k"), hx("v")}, Records: [][]string{{hx("a"), hx("1")}, {hx("b"), hx("2")}, {hx("a"), hx("3")}}}
+			runCsvCase(o, c, rep, valid)
+			rep.Count("corpus-existing-output")
+		}
+	}
 	// corpus: prefix-related headers whose fields complete the same concatenation ("a"+"bx" = "ab"+"x")
 	for _, big := range []bool{false, true} {
 		c := &CsvCase{Big: big, Header: []string{hx("A"), hx("Ab"), hx("n")},
